@@ -1,10 +1,139 @@
-(* Props/C01.v — placeholder while the harness is being brought up (replaced below). *)
-From PM.theories Require Import Base Struct PduCls PduSpec Pdu.
+(* Props/C01.v — PDU wire format conforms to the Modbus application protocol.
+   ONLY statements; proofs are in proofs/Pdu_*_proofs.v.
+   Spec side: theories/PduSpec.v ([msg], [spec_pdu], [spec_wf]: a transcription of MODBUS
+   Application Protocol v1.1b3 section 6).  Code side: theories/Pdu.v ([obj], [py_pdu] =
+   bytes([fc]) + encode(), [py_decode] = the factories' _helper), instantiated with the tables,
+   layouts and constants that Generated/GenPdu.v regenerates from the source on every run.
+   [abs o = Some m]: object [o] stands for spec message [m] and every field fits its wire width.
+   All theorems quantify over all field values and all list lengths (unbounded Z / lists). *)
+From PM.theories Require Import Base Struct PduCls PduSpec Pdu CorrPdu.
 From PM.Generated Require Import GenPdu.
+From PM.proofs Require Import Pdu_bits_proofs Pdu_proofs Pdu_more_proofs Pdu_dec_proofs.
 Open Scope string_scope.
 Open Scope list_scope.
 Open Scope Z_scope.
 
+(* --- tie of the hand-modelled methods' struct formats to the source ----------------------- *)
 Theorem C01_formats_as_modelled : struct_fmts = modelled_fmts.
 Proof. reflexivity. Qed.
 Print Assumptions C01_formats_as_modelled.
+
+(* --- bit packing: pack_bitstring / unpack_bitstring = LSB-first packing, zero padding ------ *)
+Theorem C01_bitpack : forall bits, py_pack_bitstring bits = spec_pack_bits bits.
+Proof. exact py_pack_spec. Qed.
+Print Assumptions C01_bitpack.
+
+Theorem C01_bitunpack : forall bs, py_unpack_bitstring bs = spec_unpack_bits bs.
+Proof. exact py_unpack_spec. Qed.
+Print Assumptions C01_bitunpack.
+
+(* the packed string has ceil(n/8) bytes, all below 256 (int2byte never raises), and unpacking it
+   returns the bits followed by fewer than 8 zero bits *)
+Theorem C01_bitpack_shape : forall bits,
+  wfb (spec_pack_bits bits) = true /\
+  Z.of_nat (length (spec_pack_bits bits)) = bit_byte_count (Z.of_nat (length bits)) /\
+  bits_upto_pad bits (spec_unpack_bits (spec_pack_bits bits)) = true.
+Proof. intros b. repeat split; [apply spec_pack_bits_wfb | apply spec_pack_bits_length | apply unpack_pack_upto_pad]. Qed.
+Print Assumptions C01_bitpack_shape.
+
+(* --- encode: byte-for-byte the specification's PDU, for every conforming class ------------- *)
+Theorem C01_encode_conforms : forall o m,
+  mem_cls (class_of o) conforming_encode = true -> abs o = Some m -> py_pdu o = Ok (spec_pdu m).
+Proof. exact encode_conforms. Qed.
+Print Assumptions C01_encode_conforms.
+
+(* --- decode: every spec-conformant PDU of a conforming kind decodes to the matching class with
+       exactly the wire's field values (read-bits responses: up to the wire's zero padding) ---- *)
+Theorem C01_decode_conforms : forall m,
+  spec_wf m = true -> conforming_decode m = true ->
+  exists o d, py_decode (msg_is_request m) (spec_pdu m) = Ok o /\ abs o = Some d /\ msg_matches m d = true.
+Proof. exact decode_conforms. Qed.
+Print Assumptions C01_decode_conforms.
+
+(* --- dispatch: the factory tables pick the class the specification names, for EVERY code ---- *)
+Theorem C01_dispatch_server : forall fc, lookup_fc server_function_table fc = spec_request_class fc.
+Proof. exact dispatch_server. Qed.
+Print Assumptions C01_dispatch_server.
+
+Theorem C01_dispatch_client : forall fc, lookup_fc client_function_table fc = spec_response_class fc.
+Proof. exact dispatch_client. Qed.
+Print Assumptions C01_dispatch_client.
+
+Theorem C01_subdispatch_server : forall fc sub,
+  lookup_sub server_sub_function_table fc sub = spec_request_subclass fc sub.
+Proof. exact subdispatch_server. Qed.
+Print Assumptions C01_subdispatch_server.
+
+Theorem C01_subdispatch_client : forall fc sub,
+  lookup_sub client_sub_function_table fc sub = spec_response_subclass fc sub.
+Proof. exact subdispatch_client. Qed.
+Print Assumptions C01_subdispatch_client.
+
+(* --- exception responses: function code | 0x80, then the exception code ---------------------- *)
+Theorem C01_exception_layout : forall fc ec, 1 <= fc < 128 -> is_u8 ec = true ->
+  py_pdu (OExc fc (Z.lor fc exception_offset) ec) = Ok [Z.to_N (fc + 128); Z.to_N ec].
+Proof. exact exception_encode. Qed.
+Print Assumptions C01_exception_layout.
+
+Theorem C01_exception_decode : forall fc ec, 128 < fc < 256 -> (ec < 256)%N ->
+  py_decode_client [Z.to_N fc; ec] = Ok (OExc (fc - 128) fc (Z.of_N ec)).
+Proof. exact exception_decode. Qed.
+Print Assumptions C01_exception_decode.
+
+Theorem C01_exception_decode_strict : forall rest, py_decode_client (128%N :: rest) = Raise ModbusExc.
+Proof. exact exception_decode_0x80. Qed.
+Print Assumptions C01_exception_decode_strict.
+
+(* --- a field outside its wire width makes encode raise struct.error -------------------------- *)
+Theorem C01_encode_rejects : forall c a m,
+  abs_raw (OFixed c a) = Some m -> spec_wf m = false -> py_pdu (OFixed c a) = Raise StructError.
+Proof. exact encode_rejects_fixed. Qed.
+Print Assumptions C01_encode_rejects.
+
+Theorem C01_encode_rejects_registers : forall c regs m,
+  abs_raw (ORegsRsp c regs) = Some m -> spec_wf m = false -> py_pdu (ORegsRsp c regs) = Raise StructError.
+Proof. exact encode_rejects_regs. Qed.
+Print Assumptions C01_encode_rejects_registers.
+
+(* --- where the pinned code violates the property --------------------------------------------- *)
+(* the full statement (false on this tree; kept visible) *)
+Definition C01_full_statement : Prop :=
+  (forall o m, abs o = Some m -> py_pdu o = Ok (spec_pdu m)) /\
+  (forall m, spec_wf m = true ->
+     exists o d, py_decode (msg_is_request m) (spec_pdu m) = Ok o /\ abs o = Some d /\ msg_matches m d = true).
+
+Theorem C01_fifo_encode_refuted :
+  exists o m, abs o = Some m /\ class_of o = ReadFifoQueueResponse /\ py_pdu o <> Ok (spec_pdu m).
+Proof. exact fifo_encode_refuted. Qed.
+Print Assumptions C01_fifo_encode_refuted.
+
+Theorem C01_fifo_decode_refuted :
+  exists m, spec_wf m = true /\ decoded_matches m (py_decode false (spec_pdu m)) = false.
+Proof. exact fifo_decode_refuted. Qed.
+Print Assumptions C01_fifo_decode_refuted.
+
+Theorem C01_file_response_encode_refuted :
+  exists o m, abs o = Some m /\ class_of o = ReadFileRecordResponse /\ py_pdu o <> Ok (spec_pdu m).
+Proof. exact file_response_encode_refuted. Qed.
+Print Assumptions C01_file_response_encode_refuted.
+
+Theorem C01_slave_id_decode_refuted :
+  exists m, spec_wf m = true /\ decoded_matches m (py_decode false (spec_pdu m)) = false.
+Proof. exact slave_id_decode_refuted. Qed.
+Print Assumptions C01_slave_id_decode_refuted.
+
+Theorem C01_diag_request_decode_refuted :
+  exists m, spec_wf m = true /\ py_decode true (spec_pdu m) = Raise StructError.
+Proof. exact diag_request_decode_refuted. Qed.
+Print Assumptions C01_diag_request_decode_refuted.
+
+(* --- the hypotheses are satisfiable by non-trivial values ----------------------------------- *)
+Example C01_nonvacuous :
+  abs (OWriteCoilsReq 19 [true; false; true; true; false; false; true; true; true; false] 2)
+    = Some (MWriteCoilsReq 19 [true; false; true; true; false; false; true; true; true; false]) /\
+  py_pdu (OWriteCoilsReq 19 [true; false; true; true; false; false; true; true; true; false] 2)
+    = Ok [15; 0; 19; 0; 10; 2; 205; 1]%N /\
+  mem_cls WriteMultipleCoilsRequest conforming_encode = true /\
+  spec_wf (MReadHoldingRsp [555; 0; 100]) = true /\ conforming_decode (MReadHoldingRsp [555; 0; 100]) = true /\
+  py_decode false (spec_pdu (MReadHoldingRsp [555; 0; 100])) = Ok (ORegsRsp ReadHoldingRegistersResponse [555; 0; 100]).
+Proof. repeat split; vm_compute; reflexivity. Qed.
